@@ -22,7 +22,7 @@ ASSUMPTIONS = [
 ]
 MONITORS = ("independent walk + lstat/readlink/inode of the workspace; audit-hook recorder proving zero filesystem mutations in "
             "workspace and cache during the second checkout; byte snapshot of the cache; link record checked through get_unused_links")
-REQUIRED_COUNTERS = ["priors_with_foreign_hardlinks", "sequences", "second_checkouts_audited", "relinks_checked", "files_link_type_checked", "cache_snapshots_compared",
+REQUIRED_COUNTERS = ["dir_removed_between_checkouts", "priors_with_foreign_hardlinks", "sequences", "second_checkouts_audited", "relinks_checked", "files_link_type_checked", "cache_snapshots_compared",
                      "link_records_checked", "pair/copy->hardlink", "pair/hardlink->symlink", "pair/symlink->copy", "pair/copy->symlink",
                      "pair/hardlink->copy", "pair/symlink->hardlink", "store/local", "store/base", "single_file_cases"]
 
@@ -189,6 +189,15 @@ def run_shard(ctx):
             # 4. a second relinking checkout keeps bytes and types
             checkout(ws, fs, target, odb, force=True, relink=True, state=state)
             check_bytes("second-relink")
+            # 5. the user removes a sub-directory; checking out the same path again (same process) restores it
+            subdirs = sorted({k[:i] for k in T for i in range(1, len(k))}) if not single else []
+            if subdirs and rng.random() < 0.6:
+                import shutil
+
+                res.count("dir_removed_between_checkouts")
+                shutil.rmtree(os.path.join(ws, *rng.choice(subdirs)))
+                checkout(ws, fs, target, odb, force=True, relink=rng.random() < 0.3, state=state)
+                check_bytes("checkout-after-dir-removed")
             # cache bytes
             res.count("cache_snapshots_compared")
             cache_after = store_snapshot(croot)
